@@ -1128,6 +1128,9 @@ def write_evidence(pid, tier, seed, hs, results, replays, known_lines, violation
             "samples": samples,
             "obligations": obligations,
             "discharged": discharged,
+            "obligations_note": ("obligations = assertion and safety checks Kani generated for the harnesses (after slicing); discharged = "
+                                 "those CBMC reported SUCCESS; the difference are checks on code that is UNREACHABLE within the bounds "
+                                 "(e.g. drop glue of variants never built) or, for a finding harness, the failed check"),
             "checker_cmd": "cargo kani --lib -Z stubbing --exact --harness <h> (Kani 0.68.0, CBMC 6.11.0, CaDiCaL; unwinding assertions on)",
             "functions_encoded": functions,
             "stubs": stubs,
